@@ -87,7 +87,6 @@ RawSize(t, ps) ==
 IsSigned(t) == t \in {"b", "h", "i", "l", "q"}
 IsFloat(t) == t \in {"f", "d"}
 IsBytes(t) == t \in {"s", "c"}
-IsUInt(t) == t \in {"B", "H", "I", "Q", "L", "P"}
 
 NoDef == [kind |-> "none", packed |-> FALSE, ord |-> "", fs |-> <<>>]
 Fld(k, t, n, o, d, bits, sp, ct, ref, td) ==
@@ -136,7 +135,6 @@ SizeOf(d, ps, D) ==
       ends == {offs[i] + FSize(d.fs[i], ps, D) : i \in 1..Len(d.fs)}
       raw  == Max(ends)
   IN IF d.packed \/ "NoTailPad" \in D THEN raw ELSE Up(raw, MemberAlign(d, ps, D))
-FSizes(d, ps, D) == [i \in 1..Len(d.fs) |-> FSize(d.fs[i], ps, D)]
 (* index of the first largest member (what a union is packed from) *)
 Largest(d, ps, D) == CHOOSE i \in 1..Len(d.fs) :
                         /\ \A j \in 1..Len(d.fs) : FSize(d.fs[j], ps, D) <= FSize(d.fs[i], ps, D)
@@ -200,7 +198,7 @@ FloatOfTC(t, tc) ==
      ELSE [s |-> s, m |-> NatOfBits(Sub(mant, tz, F + 1 - tz)), e |-> ex - Bias(t) - F + tz]
 
 (* LEB128 (canonical = shortest encodings) *)
-BigInt == 0 - 1073741823    \* stands for an integer TLC cannot hold (only met when a deviation reads elsewhere)
+BigInt == 0 - 1073741823    \* stands for "some integer": a LEB128 of more than 4 bytes (only met when a deviation reads elsewhere)
 RECURSIVE ULeb(_), SLeb(_), LebLen(_, _)
 ULeb(x) == IF x < 128 THEN <<x>> ELSE <<128 + (x % 128)>> \o ULeb(x \div 128)
 SLeb(x) == LET b == x % 128  r == x \div 128 IN           \* \div floors: an arithmetic shift
@@ -212,7 +210,7 @@ LebDec(bs, o, signed) ==
   LET n == LebLen(bs, o)
       u == IF n > 4 THEN 0 ELSE LebAcc(bs, o, n)
       last == At(bs, o + n - 1)
-  IN IF n > 4 THEN [v |-> BigInt, n |-> n, x |-> o + n]         \* never generated: "some integer >= 2^28"
+  IN IF n > 4 THEN [v |-> BigInt, n |-> n, x |-> o + n]         \* never generated: a LEB128 longer than 4 bytes
      ELSE [v |-> IF signed /\ (last % 128) >= 64 THEN u - Pow2(7 * n) ELSE u, n |-> n, x |-> o + n]
 
 -----------------------------------------------------------------------------
@@ -618,7 +616,6 @@ CanMatter(x) ==
     [] x = "ArrLenCount"     -> HasArrOfDefs(TheDef)
     [] x = "LenNative"       -> psz = 32 /\ HasNest(TheDef) /\ HasT(TheDef, {"l", "L", "P"})
     [] x = "PackedNestAlign" -> HasPackedNest(TheDef)
-    [] x = "PackedTopAlign"  -> TheDef.packed
     [] x = "SLebU"           -> HasSLeb(TheDef)
     [] x = "PadAtEnd"        -> HasLoose(TheDef)
     [] x = "UnionNoPad"      -> HasUnion(TheDef)
